@@ -136,7 +136,7 @@ def gen_spec(rng, fx, k, counters):
                  compute=rng.random() < 0.8, p=rng.choice((1, 2, 3, -0.5)), c=rng.choice((2.0, -1.5)),
                  num_steps=rng.choice((21, 41)), depth=rng.choice((0, 0, 1)))
     elif kind == "plot_landscape":
-        s.update(ds=[rng.randrange(nd)], approx=rng.random() < 0.5, steps=rng.choice((8, 12)))
+        s.update(ds=[rng.randrange(nd)], approx=rng.random() < 0.5, steps=rng.choice((8, 12)), keep_open=rng.random() < 0.6)
         if rng.random() < 0.3:
             s["title"] = "T"
         if rng.random() < 0.3:
